@@ -225,15 +225,36 @@ func refIndex(g *GPath, withTargetOrigin bool) []string {
 // a Subscription without a path: it addresses the prefix itself, in the
 // registration as in the initial walk (path.CompletePath). (Until the repair
 // recorded as D23 the server skipped it when registering.)
+//
+// Dress and SubDress (index-aligned with Subs; may be shorter) hold values of
+// the request fields this server does not implement (dress.go).
 type SubList struct {
-	Prefix *GPath   `json:"prefix"`
-	Subs   []*GPath `json:"subs"`
+	Prefix   *GPath     `json:"prefix"`
+	Subs     []*GPath   `json:"subs"`
+	Dress    *ListDress `json:"dress,omitempty"`
+	SubDress []SubDress `json:"sub_dress,omitempty"`
 }
 
 func (l *SubList) proto(mode pb.SubscriptionList_Mode, updatesOnly bool) *pb.SubscriptionList {
 	s := &pb.SubscriptionList{Prefix: l.Prefix.proto(), Mode: mode, UpdatesOnly: updatesOnly}
-	for _, g := range l.Subs {
-		s.Subscription = append(s.Subscription, &pb.Subscription{Path: g.proto()})
+	if d := l.Dress; d != nil {
+		if d.HasQos {
+			s.Qos = &pb.QOSMarking{Marking: d.Qos}
+		}
+		s.AllowAggregation = d.AllowAgg
+		s.Encoding = pb.Encoding(d.Encoding)
+		for _, m := range d.Models {
+			s.UseModels = append(s.UseModels, &pb.ModelData{Name: m.Name, Organization: m.Org, Version: m.Version})
+		}
+	}
+	for i, g := range l.Subs {
+		d := l.subDress(i)
+		sub := &pb.Subscription{Path: g.proto(), Mode: pb.SubscriptionMode(d.Mode), SampleInterval: d.Sample,
+			SuppressRedundant: d.Suppress, HeartbeatInterval: d.Heartbeat}
+		if sub.Path != nil && d.PathTarget != "" {
+			sub.Path.Target = d.PathTarget
+		}
+		s.Subscription = append(s.Subscription, sub)
 	}
 	return s
 }
